@@ -13,6 +13,7 @@ def minR (x y : Rat) : Rat := if x ≤ y then x else y
 /-- `_get_numbers_distance(num1, num2, max_)` with `use_log_scale=False` -/
 def numDist (a b mx : Rat) : Rat :=
   if a = b then 0
+  else if mx = 0 then mx                       -- `if not max_: return max_` (cutoff_distance_for_pairs = 0)
   else
     let divisor := (a + b) / mx
     if divisor = 0 then mx else minR mx (absR ((a - b) / divisor))
